@@ -320,9 +320,11 @@ func GenRoute(t *rapid.T, w *world.World, denom string, opt RouteOpt) Route {
 	case "hyp":
 		tokDenom := denom
 		if !opt.EnvValid && chance(t, "route/hyp/othertoken", 15) {
-			tokDenom = pick(t, "route/hyp/tokdenom", world.HypDenoms)
+			tokDenom = pick(t, "route/hyp/tokdenom", append(append([]string{}, world.HypDenoms...), world.SynthDenom))
 		}
-		if id, ok := w.HypToken[tokDenom]; ok {
+		if tokDenom == world.SynthDenom && len(w.HypSynth) > 0 {
+			r.TokenID = append([]byte{}, w.HypSynth...)
+		} else if id, ok := w.HypToken[tokDenom]; ok {
 			r.TokenID = append([]byte{}, id...)
 		} else {
 			r.TokenID = Fill32(0x77) // no such token
@@ -367,8 +369,16 @@ func CrossedTokenRoute(t *rapid.T, w *world.World, label, denom string) (Route, 
 			others = append(others, d)
 		}
 	}
+	// ... or the SYNTHETIC token of the environment, whose own denomination is never transferred
+	if len(w.HypSynth) > 0 {
+		others = append(others, world.SynthDenom, world.SynthDenom)
+	}
 	other := pick(t, label+"/tokdenom", others)
-	return Route{Kind: "hyp", TokenID: append([]byte{}, w.HypToken[other]...), Domain: pick(t, label+"/domain", world.HypDomains), Recipient: Bytes32(t, label+"/rcpt")}, other
+	id := w.HypToken[other]
+	if other == world.SynthDenom {
+		id = w.HypSynth
+	}
+	return Route{Kind: "hyp", TokenID: append([]byte{}, id...), Domain: pick(t, label+"/domain", world.HypDomains), Recipient: Bytes32(t, label+"/rcpt")}, other
 }
 
 // ---------------------------------------------------------------------------------------------
